@@ -30,7 +30,11 @@ RULE = ("Each run picks a side (controller or switch), builds 1-40 "
         "with per-segment delays and partial recv()s; after every segment the "
         "system is run to quiescence and the delivered messages must equal "
         "the messages completely arrived, in order, once each, with the "
-        "incomplete tail held in the receive buffer.  Non-trivial = at least "
+        "incomplete tail held in the receive buffer.  A quarter of the "
+        "switch-side runs feed the worker directly as a synchronous "
+        "in-memory peer would: the next segment is pushed while the handler "
+        "of the last delivered message is still running (re-entrant read).  "
+        "Non-trivial = at least "
         "one cut fell strictly inside a message; distinct = distinct "
         "event-log digest.  reach_cut_offsets counts distinct (message type, "
         "offset-in-message) cut positions.")
@@ -48,7 +52,7 @@ REAL = ["pox.openflow.of_01.Connection.read / OpenFlow_01_Task.run",
         "consume_receive_buf)", "pox.lib.recoco scheduler/select hub",
         "libopenflow_01 unpackers"]
 STUBBED = ["socket/select/time/pinger (simkit)", "the sending peer (scripted)"]
-EXPECT_PROBES = ["side_ctl", "side_sw", "cut_inside_header", "cut_inside_body",
+EXPECT_PROBES = ["push_inside_handler", "side_ctl", "side_sw", "cut_inside_header", "cut_inside_body",
                  "cut_at_boundary", "dribble", "big_message", "coalesced",
                  "stream_starts_with_handshake_end"]
 
@@ -251,7 +255,11 @@ def gen_plan(seed, tier):
          "shuffle_ready": r.chance(0.3),
          # the stream under test begins with the message that ends the
          # handshake (so later messages may share its recv())
-         "join_handshake": side == "ctl" and r.chance(0.35)}
+         "join_handshake": side == "ctl" and r.chance(0.35),
+         # switch side: the bytes come from an in-memory peer that answers
+         # synchronously, i.e. the next read is handed to the worker while
+         # the handler of the last delivered message is still on the stack
+         "loopback": side == "sw" and r.chance(0.25)}
   if huge and cfg["recv_mode"] == "dribble":
     cfg["recv_mode"] = "choose"     # 64 KiB one byte per cycle: too slow
   # steps: one per message (so the minimiser can drop messages); cuts are
@@ -435,8 +443,10 @@ def _drive(sim, plan):
         else:
           sim.at(t, lambda d=data: sim._arrive(srv, d))
 
-  # segments
   bounds = [0] + cuts + [total]
+  if side == "sw" and cfg.get("loopback"):
+    return _loopback(sim, world, stream, bounds, sent, ends, got, plan)
+  # segments
   delays = list(plan.get("delays", [])) + [0] * (len(bounds))
   arrived = 0
   cyc0 = sim.cycles
@@ -485,6 +495,59 @@ def _drive(sim, plan):
       raise Violation("sw/closed", "switch closed the connection while "
                       "reading well-formed messages")
   sim.probes["msgs"] += len(msgs)
+
+
+def _loopback(sim, world, stream, bounds, sent, ends, got, plan):
+  """the stream reaches the switch's worker through _push_receive_data, the
+  next segment from inside a message handler whenever one is running (per
+  plan["delays"]: an odd delay = nested if possible)"""
+  worker = world.worker
+  total = len(stream)
+  segs = [stream[bounds[i]:bounds[i + 1]] for i in range(len(bounds) - 1)]
+  nest = [bool(d & 1) for d in plan.get("delays", [])] + [True] * len(segs)
+  pos = [0]
+  depth = [0]
+  sw = world.switch
+  inner = worker.connection.on_message_received
+
+  def push_next():
+    i = pos[0]
+    pos[0] += 1
+    sim.ev("push", i, len(segs[i]), depth[0])
+    if depth[0]:
+      sim.probes["push_inside_handler"] += 1
+    worker._push_receive_data(segs[i])
+
+  def rec(connection, msg):
+    r = inner(connection, msg)
+    # (the handler "answers", and the peer's next bytes come straight back)
+    depth[0] += 1
+    try:
+      while pos[0] < len(segs) and nest[pos[0]] and depth[0] < 30:
+        push_next()
+    finally:
+      depth[0] -= 1
+    return r
+  worker.connection.set_message_handler(rec)
+  sim.probes["loopback"] += 1
+  try:
+    while pos[0] < len(segs):
+      push_next()
+  except Exception as e:
+    raise Violation("sw/exception-escaped", "pushing received bytes into "
+                    "the switch's worker raised %s: %s"
+                    % (type(e).__name__, str(e)[:200]))
+  sim.settle()
+  have = list(got)
+  if have != sent:
+    _explain(have, sent, total, total, "sw")
+  if bytes(worker.receive_buf):
+    raise Violation("sw/residual", "all %d bytes pushed, %d left in the "
+                    "receive buffer" % (total, len(worker.receive_buf)))
+  if world.ctl.rx_eof:
+    raise Violation("sw/closed", "switch closed the connection while "
+                    "reading well-formed messages")
+  sim.probes["msgs"] += len(sent)
 
 
 def _frames_of(stream):
